@@ -16,6 +16,7 @@ from ngo.utils.ast import (
     SIGNS,
     AggAnalytics,
     Predicate,
+    characteristic_variables,
     collect_ast,
     global_vars_inside_body,
     global_vars_inside_head,
@@ -197,7 +198,7 @@ class InlineTranslator:
             # the tuple has to identify the inlined atom, otherwise equal values of different atoms collapse
             tuple_vars: set[AST] = set()
             for term in replace_elem.terms[1:]:
-                tuple_vars.update(collect_ast(term, "Variable"))
+                tuple_vars.update(characteristic_variables(term))
             for pos, arg in enumerate(replace_cond.atom.symbol.arguments):
                 if pos != hv_pos and not set(collect_ast(arg, "Variable")).issubset(tuple_vars):  # pylint: disable=undefined-loop-variable
                     return atom
@@ -252,7 +253,7 @@ class InlineTranslator:
         # one value per binding of the global variables, they have to be part of the tuple to stay distinct
         term_vars: set[AST] = set()
         for term in stm.terms:
-            term_vars.update(collect_ast(term, "Variable"))
+            term_vars.update(characteristic_variables(term))
         if not global_vars_inside_body(rbody).issubset(term_vars):
             return [stm]
         new_minimizes = []
